@@ -14,6 +14,10 @@ BadOf(i, ev) ==
   { [prop |-> "C10", line |-> i, fn |-> "RadRate", Z |-> ev.Z, group |-> n,
      got |-> [ok |-> Ok(ev.RR, LineMacro[n]), v |-> FStr(Val(ev.RR, LineMacro[n]))], want |-> {Show(GroupRateWant(ev, n))}] :
     n \in { n \in RateGroups : ~Agree(GroupRateWant(ev, n), Ok(ev.RR, LineMacro[n]), Val(ev.RR, LineMacro[n])) } }
-Judged == JudgedWith(BadOf)
+Repeats(i, ev) ==
+  { [prop |-> "C10", line |-> i, fn |-> f, Z |-> ev.Z, why |-> "asked once before and twice back to back after the judged row, the answers (value or error) are not the same for " \o ToString(IF f = "LineEnergy" THEN ev.repE ELSE ev.repRR) \o " line macro(s)"] :
+    f \in { f \in {"LineEnergy", "RadRate"} : (f = "LineEnergy" /\ ev.repE # 0) \/ (f = "RadRate" /\ ev.repRR # 0) } }
+BadAll(i, ev) == BadOf(i, ev) \cup Repeats(i, ev)
+Judged == JudgedWith(BadAll)
 Static == c = 0 => (GroupStructureOK \/ PrintT("MISMATCH " \o ToJson([prop |-> "C10", layer |-> "spec", why |-> "line group structure / Siegbahn alias outside its series"])))
 ============================================================================
